@@ -224,6 +224,7 @@ pub fn payload_bytes(kind: u8, seed: u32, len: usize) -> Vec<u8> {
 // interpreter
 
 pub struct Stats {
+    pub exit_snapshots: u64,
     pub accepted: u64,
     pub rejected: u64,
     pub rollovers: u64,
@@ -246,7 +247,7 @@ pub struct Stats {
 
 impl Default for Stats {
     fn default() -> Self {
-        Stats { accepted: 0, rejected: 0, rollovers: 0, reopens: 0, failed_multi_after_first: 0, acked_after_rollover: false, acked_after_failed_multi: false, reopen_after_interesting: false, scans: 0, scans_nontrivial: 0, reads: 0, same_stream_accept_and_reject: false, tx_repeats_stream: false, seq_expect_used: false, stream_across_rollover_or_reopen: false, boundary_between: 0, boundary_appends: 0, uncommitted_touched: 0 }
+        Stats { exit_snapshots: 0, accepted: 0, rejected: 0, rollovers: 0, reopens: 0, failed_multi_after_first: 0, acked_after_rollover: false, acked_after_failed_multi: false, reopen_after_interesting: false, scans: 0, scans_nontrivial: 0, reads: 0, same_stream_accept_and_reject: false, tx_repeats_stream: false, seq_expect_used: false, stream_across_rollover_or_reopen: false, boundary_between: 0, boundary_appends: 0, uncommitted_touched: 0 }
     }
 }
 
@@ -274,6 +275,29 @@ pub struct Interp<'a> {
     pub report_as: Option<&'static str>,
     /// prefix inserted into signatures in `report_as` mode (classification of the crash cut)
     pub sig_prefix: String,
+    /// at every reopen, also judge the state a process exit *at the return of shutdown()* would
+    /// leave behind (a snapshot of the directory taken at that instant must open and pass the audit)
+    pub exit_snapshot: bool,
+}
+
+/// Copies a database directory; `indexes` selects the index files (true) or everything else.
+fn copy_dir_filtered(src: &std::path::Path, dst: &std::path::Path, indexes: bool) -> std::io::Result<()> {
+    std::fs::create_dir_all(dst)?;
+    for e in std::fs::read_dir(src)? {
+        let e = e?;
+        let p = e.path();
+        let d = dst.join(e.file_name());
+        if p.is_dir() {
+            copy_dir_filtered(&p, &d, indexes)?;
+        } else {
+            let name = e.file_name().to_string_lossy().to_string();
+            let is_index = name.ends_with(".eidx") || name.ends_with(".pidx") || name.ends_with(".sidx");
+            if is_index == indexes {
+                std::fs::copy(&p, &d)?;
+            }
+        }
+    }
+    Ok(())
 }
 
 pub fn render_expected(e: ExpectedVersion) -> String {
@@ -283,7 +307,7 @@ pub fn render_expected(e: ExpectedVersion) -> String {
 impl<'a> Interp<'a> {
     pub fn new(cfg: DbCfg, dir: &Path, focus: &'static str, out: &'a mut CaseOut, env: &'a Env) -> Interp<'a> {
         let buckets = cfg.buckets;
-        Interp { cfg, dir: dir.to_path_buf(), db: None, model: Model::new(buckets), focus, out, env, stopped: false, stats: Stats::default(), rendered: Vec::new(), next_id: 1, live_end: HashMap::new(), stream_rejected: HashMap::new(), stream_accepted: HashMap::new(), stream_last_epoch: HashMap::new(), epoch: 0, pending_interesting: false, report_as: None, sig_prefix: String::new() }
+        Interp { cfg, dir: dir.to_path_buf(), db: None, model: Model::new(buckets), focus, out, env, stopped: false, stats: Stats::default(), rendered: Vec::new(), next_id: 1, live_end: HashMap::new(), stream_rejected: HashMap::new(), stream_accepted: HashMap::new(), stream_last_epoch: HashMap::new(), epoch: 0, pending_interesting: false, report_as: None, sig_prefix: String::new(), exit_snapshot: false }
     }
 
     pub fn open(&mut self) -> bool {
@@ -1269,9 +1293,44 @@ impl<'a> Interp<'a> {
 
     pub async fn reopen(&mut self) {
         self.rendered.push(json!("reopen"));
+        let mut snapshot: Option<vlib::Scratch> = None;
         if let Some(db) = self.db.take() {
             db.shutdown().await;
+            if self.exit_snapshot {
+                // what a process that exits as soon as shutdown() returns leaves on disk: index
+                // files first (they are what background jobs may still be writing)
+                let snap = vlib::Scratch::new("exit-snap");
+                let _ = copy_dir_filtered(&self.dir, snap.path(), true);
+                let _ = copy_dir_filtered(&self.dir, snap.path(), false);
+                snapshot = Some(snap);
+            }
             drop(db);
+        }
+        if let Some(snap) = snapshot {
+            self.rendered.push(json!("(state at the return of shutdown() opened separately)"));
+            match self.cfg.open(snap.path()) {
+                Ok(db) => {
+                    self.db = Some(db);
+                    self.audit("exit-at-shutdown-return").await;
+                    if let Some(db) = self.db.take() {
+                        db.shutdown().await;
+                    }
+                    self.stats.exit_snapshots += 1;
+                    if self.stopped {
+                        return;
+                    }
+                }
+                Err(e) => {
+                    let msg = format!("{e}");
+                    if vlib::is_resource_exhaustion(&msg) {
+                        self.out.class("inconclusive-resource-exhaustion");
+                        self.stopped = true;
+                        return;
+                    }
+                    self.fail("C01", "exit-at-shutdown-return/open-failed", format!("the directory as it is when Database::shutdown() returns (a process may exit then) does not open: {msg}"));
+                    return;
+                }
+            }
         }
         if !self.open() {
             return;
